@@ -9,7 +9,6 @@ EXTENDS Query, Json
 AbsLabels == {"p", "ra", "rb", "c", "v/x"}
 AbsTerms == [l \in AbsLabels |-> CASE l = "p" -> {"p"} [] l = "ra" -> {"p", "ra"} [] l = "rb" -> {"p", "rb"}
                                    [] l = "c" -> {"c"} [] l = "v/x" -> {"v"}]
-AbsShort == [l \in AbsLabels |-> l]
 L3 == {"ra", "rb", "c"}
 L5 == AbsLabels
 
@@ -22,16 +21,23 @@ XAny(q) == [op |-> "xany", r |-> q]
 XOnly(q) == [op |-> "xonly", r |-> q]
 XOpt(q, o) == [op |-> "xopt", r |-> q, l |-> o]
 
+Un(k, q) == CASE k = 1 -> Not(q) [] k = 2 -> Desc(q) [] k = 3 -> XAny(q) [] k = 4 -> XOnly(q)
+Bin(k, a, b) == IF k = 1 THEN And(a, b) ELSE Or(a, b)
 \* ---- universes for the law invariants
 Atoms == <<T("p"), T("ra"), T("c"), X("rb"), P("r")>>
 AS == ToSet(Atoms)
-Q1 == SetToSeq({q \in AS \cup {Not(a) : a \in AS} \cup {Desc(a) : a \in AS} \cup {XAny(a) : a \in AS}
-                        \cup {XOnly(a) : a \in AS} \cup {W(i) : i \in 1..3}
-                        \cup {Not(Desc(T("p"))), Desc(Not(T("ra"))), And(Not(T("p")), Not(T("c"))), Desc(And(Not(T("p")), Not(T("c")))),
-                              XOpt(T("ra"), T("c")), XAny(And(T("p"), T("p"))), Desc(And(T("p"), T("c")))}
-                 : WellFormed(q)})
-\* triples for associativity: atoms, a negation, a wildcard, group operators
-Q3 == Atoms \o <<Not(T("c")), W(1), Desc(T("p")), XAny(T("ra")), Not(T("p"))>>
+Specials == {Not(Desc(T("p"))), Desc(Not(T("ra"))), And(Not(T("p")), Not(T("c"))), Desc(And(Not(T("p")), Not(T("c")))),
+             XOpt(T("ra"), T("c")), XAny(And(T("p"), T("p"))), Desc(And(T("p"), T("c")))}
+Q1Big == SetToSeq({q \in AS \cup {Not(a) : a \in AS} \cup {Desc(a) : a \in AS} \cup {XAny(a) : a \in AS}
+                        \cup {XOnly(a) : a \in AS} \cup {W(i) : i \in 1..3} \cup Specials : WellFormed(q)})
+Q1Small == SetToSeq({q \in AS \cup {Un(k, a) : k \in 1..4, a \in {T("p"), X("rb")}} \cup {W(i) : i \in 1..3}
+                        \cup {Desc(And(Not(T("p")), Not(T("c")))), XOpt(T("ra"), T("c")), XAny(And(T("p"), T("p")))} : WellFormed(q)})
+\* triples for associativity: atoms, negations, a wildcard, group operators
+Q3Big == Atoms \o <<Not(T("c")), W(1), Desc(T("p")), XAny(T("ra")), Not(T("p"))>>
+Q3Small == Atoms \o <<Not(T("c")), W(1)>>
+CONSTANT Big          \* TRUE: the larger universes
+Q1 == IF Big THEN Q1Big ELSE Q1Small
+Q3 == IF Big THEN Q3Big ELSE Q3Small
 
 OrIff == LawOrIff(tree, Q1)
 AndOnlyIfBoth == LawAndOnlyIfBoth(tree, Q1)
@@ -48,8 +54,6 @@ GA == <<T("p"), T("ra"), T("c"), X("ra"), X("rb"), X("p"), P("r"), P("ra"), T("v
 GW == <<W(1), W(2), W(3)>>
 GB == <<T("p"), T("ra"), X("rb"), T("c"), P("r"), W(1)>>
 GC == <<T("p"), T("ra"), T("c")>>
-Un(k, q) == CASE k = 1 -> Not(q) [] k = 2 -> Desc(q) [] k = 3 -> XAny(q) [] k = 4 -> XOnly(q)
-Bin(k, a, b) == IF k = 1 THEN And(a, b) ELSE Or(a, b)
 SA == ToSet(GA)  SW == ToSet(GW)  SB == ToSet(GB)  SC == ToSet(GC)
 GenSet ==
     SA \cup SW
@@ -77,10 +81,15 @@ GenSmallSet ==
     \cup {Bin(j, T("p"), Bin(k, b, c)) : j \in 1..2, k \in 1..2, b \in SC, c \in SC}
 GenSmallQ == SetToSeq({q \in GenSmallSet : WellFormed(q)})
 
-CONSTANT Gen          \* the sequence of queries evaluated on every tree in generation runs
-ASSUME PrintT("@@EMIT@@" \o ToJson([queries |-> Gen]))
-EmitTree == PrintT("@@EMIT@@" \o ToJson([n |-> tree.n, par |-> tree.par, lab |-> tree.lab,
-                                           res |-> [i \in 1..Len(Gen) |-> Match(tree, Gen[i])]]))
+\* one JSON line per annotation: the booleans of every query of the universe, and the pairs of
+\* atoms (positions in G) that have no distinct-tag witness on this annotation
+AtomIdx(G) == {i \in 1..Len(G) : G[i].op \in AtomOps}
+EmitFor(G) == /\ (tree.n = 0 => PrintT("@@EMIT@@" \o ToJson([queries |-> G])))
+              /\ PrintT("@@EMIT@@" \o ToJson([n |-> tree.n, par |-> tree.par, lab |-> tree.lab,
+                     res |-> [i \in 1..Len(G) |-> Match(tree, G[i])],
+                     nodw |-> {<<i, j>> \in AtomIdx(G) \X AtomIdx(G) : ~DistinctWitness(tree, G[i], G[j])}]))
+EmitSmall == EmitFor(GenSmallQ)
+EmitFull == EmitFor(GenQ)
 
 \* ---- query texts
 AlphaFull == {"a", "?", "????", "&&", ",", "||", "~", "(", ")", "[", "]", "{", "}", ":", "[[", "]]", "$", "&"}
